@@ -6,6 +6,6 @@ cd "$(dirname "$0")"
 export CARGO_NET_OFFLINE=true
 mkdir -p build evidence replays
 [ -f harness/Cargo.lock ] || cp /repo/Cargo.lock harness/Cargo.lock
-( cd lean && lake build BS bsmodel )
+( cd lean && lake build BS BS.All bsmodel )
 ( cd harness && cargo build --offline --profile verif )
 echo "setup ok"
